@@ -6,8 +6,6 @@ import (
 	"strings"
 	"testing"
 
-	"google.golang.org/grpc/codes"
-
 	configv1 "github.com/istio-ecosystem/authservice/config/gen/go/v1"
 	mockv1 "github.com/istio-ecosystem/authservice/config/gen/go/v1/mock"
 	oidcv1 "github.com/istio-ecosystem/authservice/config/gen/go/v1/oidc"
@@ -133,11 +131,13 @@ func c08RunSeq(c *sim.Case, chains []c08Chain, allowUnmatched bool, reqs []map[s
 		if !wantAllow {
 			switch {
 			case judge < 0:
-				if r.Code != codes.PermissionDenied || r.Denied {
-					c.Violation("unmatched-denial-shape", "%s: unmatched request answered %v", desc, r)
+				// any denial will do (its code, status and body are not the statement's business) as long as it is not
+				// some filter's answer: a login redirect would be
+				if r.IsRedirect() {
+					c.Violation("unmatched-denial-shape", "%s: unmatched request answered with a filter's redirect: %v", desc, r)
 				}
 			case chains[judge].Filters[denier] == 1:
-				if r.Code != codes.PermissionDenied || r.IsRedirect() {
+				if r.IsRedirect() {
 					c.Violation("denial-not-the-deniers", "%s: the mock filter %d of chain %d denies, but the response is %v", desc, denier, judge, r)
 				}
 			case chains[judge].Filters[denier] == 2:
